@@ -354,6 +354,15 @@ where
         self.l_fingerprint
     }
 
+    /// Verification hook (only with `--cfg pdatastructs_verif`): read-only dump of the
+    /// `n_buckets * bucketsize` logical fingerprint slots (0 = free).
+    #[cfg(pdatastructs_verif)]
+    pub fn verif_table(&self) -> Vec<u64> {
+        (0..(self.n_buckets * self.bucketsize))
+            .map(|i| self.table.get(i as u64))
+            .collect()
+    }
+
     /// Remove element from the filter.
     ///
     /// Returns `true` if element was in the filter, `false` if it was not in which case the operation did not modify
